@@ -1,0 +1,22 @@
+//go:build verif
+// +build verif
+
+// Contracts for package cluster (build tag verif only; no executable code).
+package cluster
+
+//@ spec distinctIds(s []uint64) bool = forall i int, j int :: 0 <= i && i < j && j < len(s) ==> s[i] != s[j]
+
+// NodeIds: a fresh slice holding every key of the address book exactly once.
+//@ func (*cluster.Conn).NodeIds
+//@ props C16 C20
+//@ requires [book] this.addresses != nil
+//@ ensures [len] len(ret) == len(this.addresses)
+//@ ensures [members] forall i int :: 0 <= i && i < len(ret) ==> has(this.addresses, ret[i])
+//@ ensures [distinct] distinctIds(ret)
+//@ ensures [fresh] fresh(ret)
+//@ modifies nothing
+//@ loop 1
+//@ invariant [len] len(ids) == $count && len(ids) <= cap(ids)
+//@ invariant [visited] forall i int :: 0 <= i && i < len(ids) ==> $visited[ids[i]] && has(this.addresses, ids[i])
+//@ invariant [distinct] distinctIds(ids)
+//@ invariant [fresh] fresh(ids)
